@@ -145,17 +145,41 @@ Proof.
 Qed.
 Print Assumptions c18_close_final.
 
-Theorem c18_read_failure_ends_reader : forall st normal,
+Theorem c18_read_failure_ends_reader : forall st normal cls,
   Inv st -> reading st = true ->
-  snd (rstep st (ReadFail normal)) = OReadFail false -> rs_rdead (fst (rstep st (ReadFail normal))) = true.
+  snd (rstep st (ReadFail normal cls)) = OReadFail false -> rs_rdead (fst (rstep st (ReadFail normal cls))) = true.
 Proof. exact read_fail_ends_reader. Qed.
 Print Assumptions c18_read_failure_ends_reader.
 
-Theorem c18_read_side_exhaustion_cancels : forall st,
+(* Only the peer's NORMAL close ends the reader without a redial.  A read failure carrying any
+   other close status (going away, abnormal, internal error, plain closed, none) is handled
+   exactly like an abrupt one: with a redial round that succeeds the read loop goes on on the
+   new connection (c18_redial_replaces), Reads keep what they held; and the reader can stop
+   being live at a read failure only through the normal close or a failed round. *)
+Theorem c18_read_failure_status_irrelevant : forall st cls cls',
+  rstep st (ReadFail false cls) = rstep st (ReadFail false cls').
+Proof. exact read_fail_status_irrelevant. Qed.
+Theorem c18_non_normal_read_failure_redials : forall st cls,
   Inv st -> reading st = true ->
-  snd (rstep st (ReadFail false)) = OReadFail false ->
-  rs_cancel (fst (rstep st (ReadFail false))) = true /\
-  forall bs, snd (write_one (fst (rstep st (ReadFail false))) bs) = WErr.
+  snd (reconnect (rs_budget st) (rs_tid st) (rs_tailhs st) (rs_net st)) = true ->
+  let r := rstep st (ReadFail false cls) in
+  snd r = OReadFail true /\ reading (fst r) = true /\
+  rs_net (fst r) = fst (reconnect (rs_budget st) (rs_tid st) (rs_tailhs st) (rs_net st)) /\
+  rs_readq (fst r) = rs_readq st /\ rs_pr (fst r) = rs_pr st.
+Proof. exact non_normal_read_failure_redials. Qed.
+Theorem c18_reader_ends_only : forall st normal cls,
+  Inv st -> reading st = true -> reading (fst (rstep st (ReadFail normal cls))) = false ->
+  normal = true \/ snd (reconnect (rs_budget st) (rs_tid st) (rs_tailhs st) (rs_net st)) = false.
+Proof. exact reader_ends_only. Qed.
+Print Assumptions c18_read_failure_status_irrelevant.
+Print Assumptions c18_non_normal_read_failure_redials.
+Print Assumptions c18_reader_ends_only.
+
+Theorem c18_read_side_exhaustion_cancels : forall st cls,
+  Inv st -> reading st = true ->
+  snd (rstep st (ReadFail false cls)) = OReadFail false ->
+  rs_cancel (fst (rstep st (ReadFail false cls))) = true /\
+  forall bs, snd (write_one (fst (rstep st (ReadFail false cls))) bs) = WErr.
 Proof. exact read_side_exhaustion_cancels. Qed.
 Print Assumptions c18_read_side_exhaustion_cancels.
 
